@@ -60,6 +60,37 @@ def _harness_out(ctx, path, kind):
     return summ[0]
 
 
+def concurrent_bodies(ctx, binp=None):
+    """many bodies traced at once, each with a compressed end-of-stream message of its own: every trace must carry its
+    own content (the events of a body are a function of that body's bytes alone).  Whether two bodies overlap is up to
+    the scheduler, so the driver is executed up to three times and a mismatch counts when every execution shows one.
+    Also used by C02, C13 and C20 (through replay_reduced), whose bindings read what the tracer captured."""
+    binp = binp or ctx.go_test_bin("internal/tracer", ["c14"])
+    outp = os.path.join(ctx.build, "c14.conc.ndjson")
+    first, seen = None, 0
+    for k in range(3):
+        ctx.run_harness(binp, "TestVerifC14Concurrent", env=dict(VERIF_OUT=outp, VERIF_ROUNDS=40 if ctx.quick else 300), timeout=1200)
+        res = vf.read_ndjson(outp)
+        summ = [r for r in res if r.get("summary")]
+        if not summ:
+            raise vf.Machinery("concurrent-bodies harness wrote no summary")
+        if k == 0:
+            ctx.cov["evaluations"] += summ[0]["evaluations"]
+            ctx.cov["traces_validated_against_impl"] += summ[0]["evaluations"]
+            ctx.notes["concurrent_bodies"] = summ[0]
+        bad = [r for r in res if r.get("kind") == "conc"]
+        if not bad:
+            break
+        seen += 1
+        first = first or bad[0]
+    if seen == 3:
+        ctx.candidate(dict(kind="concurrent-bodies", enc=first["enc"], why=re.sub(r"\d+", "N", first["why"])[:60]),
+                      "bodies traced concurrently (3 of 3 executions): %s encoding, body %s: %s" % (first["enc"], first["salt"], first["why"]),
+                      dict(kind="concurrent", rec=first))
+    elif seen:
+        ctx.notes["unreproduced"] = ctx.notes.get("unreproduced", 0) + 1
+
+
 def replay_reduced(ctx):
     """the flags family (every flag byte x payload class x encoding) and a few random bodies on the real tracer carriers;
     used by C20: the wire tracer is one of the places where an encoding name must mean the same algorithm and where a
@@ -82,6 +113,7 @@ def replay_reduced(ctx):
         ctx.cov["evaluations"] += sm["evaluations"]
         ctx.cov["traces_validated_against_impl"] += sm["scenarios"]
         base += len(lines)
+    concurrent_bodies(ctx, binp)
 
 
 def run(ctx):
@@ -93,7 +125,9 @@ def run(ctx):
         rp = json.load(open(ctx.replay))
         ctx.seed = rp.get("seed", ctx.seed)
         kind, rec = rp["scenario"]["kind"], rp["scenario"]["rec"]
-        if kind == "replay":
+        if kind == "concurrent":
+            concurrent_bodies(ctx, binp)
+        elif kind == "replay":
             vf.write_ndjson(scnp, [rec["scn"]])
             ctx.run_harness(binp, "TestVerifC14Replay", env=dict(VERIF_SCN=scnp, VERIF_OUT=outp, VERIF_IDX_BASE=rec["idx"]))
             _harness_out(ctx, outp, "replay")
@@ -168,6 +202,7 @@ def run(ctx):
         ctx.notes["later_phases_aborted"] = str(e)[:500]
         ctx.log("later phases aborted after reproduced violations: %s" % str(e)[:300])
 
+    concurrent_bodies(ctx, binp)
     ctx.cov["exhaustive"] = False
     if not ctx.replay:
         # the same message tracer (dataTracer) also runs inside the HTTP/2 connection tracer, which drives it differently
